@@ -46,8 +46,10 @@ def gen_world(r, policy_bytes):
     ntask = r.randrange(2, 9)
     tid = 5000
     for p in range(ntask):
-        cls = r.choice(["uid!=gid", "uid!=gid", "root", "uid0-gid!=0", "gid0-uid!=0", "uid==gid", "agent"])
-        uid, gid = {"uid!=gid": (1000 + p, 2000 + p), "root": (0, 0), "uid0-gid!=0": (0, 50 + p), "gid0-uid!=0": (1000 + p, 0), "uid==gid": (1500 + p, 1500 + p), "agent": (0, 0)}[cls]
+        cls = r.choice(["uid!=gid", "uid!=gid", "root", "uid0-gid!=0", "gid0-uid!=0", "uid==gid", "agent", "wide-uid"])
+        # wide-uid: ids that need more than 16 bits (user namespaces, directory services), among them multiples of 65536
+        uid, gid = {"uid!=gid": (1000 + p, 2000 + p), "root": (0, 0), "uid0-gid!=0": (0, 50 + p), "gid0-uid!=0": (1000 + p, 0), "uid==gid": (1500 + p, 1500 + p), "agent": (0, 0),
+                    "wide-uid": r.choice([(65536, 65536), (100000 + p, 100000), (524288, 1000 + p), (65536 * 3, 7), (4294967294, 4294967294), (70000 + p, 65536)])}[cls]
         tgid = agent_tgid if cls == "agent" else 6000 + p * 10
         for th in range(r.randrange(1, 4)):
             tid += 1
